@@ -61,13 +61,17 @@ var errInjected = errors.New("injected write failure")
 
 type faultRWC struct {
 	failAt, failK int // Write call index that fails after failK bytes; -1 = healthy
-	writes        int
-	lens          []int    // len(b) of every Write call
-	sendOf        []int    // send in progress at every Write call
-	cur           int      // send in progress
-	contrib       [][]byte // bytes accepted per send
-	all           []byte   // everything accepted, in order
-	closed        int
+	// failK == -1: Write #failAt accepts everything but, as a side effect,
+	// cancels the context of the send in progress (cancellation between two
+	// Writes of one frame)
+	cancel          func()
+	writes          int
+	lens            []int    // len(b) of every Write call
+	sendOf          []int    // send in progress at every Write call
+	cur             int      // send in progress
+	contrib         [][]byte // bytes accepted per send
+	all             []byte   // everything accepted, in order
+	closed          int
 	writeAfterClose bool
 }
 
@@ -86,7 +90,11 @@ func (f *faultRWC) Write(b []byte) (int, error) {
 	}
 	n := len(b)
 	var err error
-	if j == f.failAt {
+	if j == f.failAt && f.failK == -1 {
+		if f.cancel != nil {
+			f.cancel()
+		}
+	} else if j == f.failAt {
 		n = f.failK
 		if n > len(b) {
 			n = len(b)
@@ -179,9 +187,11 @@ func run(packed bool, kinds []int, failAt, failK int) (*faultRWC, []sendRec, err
 	} else {
 		tr = rpc.NewStreamTransport(rwc)
 	}
-	ctx := context.Background()
 	recs := make([]sendRec, len(kinds))
 	for s, kind := range kinds {
+		ctx, cancel := context.WithCancel(context.Background())
+		rwc.cancel = cancel
+		defer cancel()
 		rwc.cur = s
 		for len(rwc.contrib) <= s {
 			rwc.contrib = append(rwc.contrib, nil)
@@ -335,6 +345,9 @@ func judge(q seqSpec, fc faultCase, frames [][]byte, rwc *faultRWC, recs []sendR
 	if fc.k == 0 {
 		sub = "between-buffers"
 	}
+	if fc.k == -1 {
+		sub = "cancelled-between-buffers"
+	}
 	torn := -1 // send whose frame is partly on the stream
 	var delivered [][][]byte
 	for s, rec := range recs {
@@ -351,9 +364,11 @@ func judge(q seqSpec, fc faultCase, frames [][]byte, rwc *faultRWC, recs []sendR
 		}
 		switch {
 		case !rec.failed():
-			if s == faultSend {
+			if s == faultSend && fc.k != -1 {
 				fail("send-hides-write-error", "send %d returned nil although a Write failed", s)
 			}
+			// fc.k == -1: the context was cancelled after the frame's last
+			// Write; the frame is complete and the send may report success
 			if !bytes.Equal(got, frames[s]) {
 				fail("successful-send-wrong-bytes", "send %d returned nil but the bytes on the stream are not its frame", s)
 			} else {
@@ -492,37 +507,42 @@ const Rule = "part (b) torn writes: real rpc.NewStreamTransport and rpc.NewPacke
 
 // Assumptions of this part.
 var Assumptions = []string{
-			"a frame is torn when at least one and not all of its bytes were accepted by the stream; a Write failing with 0 bytes at the first Write of a frame leaves the stream at a frame boundary and whether later sends are then refused is left open (outcome)",
-			"expected frame bytes of each send are taken from a healthy run of the same sends in the same case and are themselves checked against an independent spec framing (and ref.Unpack for the packed transport)",
-			"packed receiver: when only the final run-count byte of the torn frame is missing, packed.Reader hands out all words of that frame (C13/C14 late report); the Decoder then returns the true torn message, which is counted as an outcome, not as garbage",
-			"contract of Transport.NewMessage followed: send called at most once, release called afterwards, CapTable nil; context.Background so no goroutines or timers take part",
+	"a frame is torn when at least one and not all of its bytes were accepted by the stream; a Write failing with 0 bytes at the first Write of a frame leaves the stream at a frame boundary and whether later sends are then refused is left open (outcome)",
+	"expected frame bytes of each send are taken from a healthy run of the same sends in the same case and are themselves checked against an independent spec framing (and ref.Unpack for the packed transport)",
+	"packed receiver: when only the final run-count byte of the torn frame is missing, packed.Reader hands out all words of that frame (C13/C14 late report); the Decoder then returns the true torn message, which is counted as an outcome, not as garbage",
+	"contract of Transport.NewMessage followed: send called at most once, release called afterwards, CapTable nil; context.Background so no goroutines or timers take part",
 }
 
 // Families returns the torn-write family.
 func Families(tier string) []vlib.Family {
-			specs := seqSpecs()
-			var cases []faultCase
-			for si, q := range specs {
-				cases = append(cases, faultCase{si, -1, 0})
-				for j, L := range q.lens {
-					for _, k := range shortCounts(L, tier == "thorough") {
-						cases = append(cases, faultCase{si, j, k})
-					}
-				}
+	specs := seqSpecs()
+	var cases []faultCase
+	for si, q := range specs {
+		cases = append(cases, faultCase{si, -1, 0})
+		for j, L := range q.lens {
+			for _, k := range shortCounts(L, tier == "thorough") {
+				cases = append(cases, faultCase{si, j, k})
 			}
-			return []vlib.Family{{
-				Name: "torn-write", N: int64(len(cases)),
-				Run: func(i int64, r *vlib.Rec) {
-					fc := cases[i]
-					runCase(specs[fc.seq], fc, r)
-				},
-				Describe: func(i int64) interface{} {
-					fc := cases[i]
-					q := specs[fc.seq]
-					if fc.j < 0 {
-						return q.String() + "; healthy"
-					}
-					return fmt.Sprintf("%s; Write #%d (%d bytes) returns (%d, err)", q, fc.j, q.lens[fc.j], fc.k)
-				},
-			}}
+			// the sending context is cancelled right after Write #j completed
+			cases = append(cases, faultCase{si, j, -1})
+		}
+	}
+	return []vlib.Family{{
+		Name: "torn-write", N: int64(len(cases)),
+		Run: func(i int64, r *vlib.Rec) {
+			fc := cases[i]
+			runCase(specs[fc.seq], fc, r)
+		},
+		Describe: func(i int64) interface{} {
+			fc := cases[i]
+			q := specs[fc.seq]
+			if fc.j < 0 {
+				return q.String() + "; healthy"
+			}
+			if fc.k == -1 {
+				return fmt.Sprintf("%s; the send's context is cancelled right after Write #%d (%d bytes) completed", q, fc.j, q.lens[fc.j])
+			}
+			return fmt.Sprintf("%s; Write #%d (%d bytes) returns (%d, err)", q, fc.j, q.lens[fc.j], fc.k)
+		},
+	}}
 }
